@@ -38,7 +38,7 @@ func (c *check) NumCases(tier string) int {
 	if tier == "thorough" {
 		return 5000
 	}
-	return 304
+	return 912
 }
 func (c *check) Rule() string {
 	return "owner chains drawn from PCG(seed, index, stream 18): bare Pod, Spark driver+executors, Job, CronJob->Job, Deployment->ReplicaSet, StatefulSet, ReplicaSet, " +
